@@ -44,6 +44,8 @@ def _witness_worker(modname, sub, case_enc):
             mod.replay(sub, dec(case_enc))
         except Violation as v:
             return {"klass": v.klass, "msg": v.msg}
+        except core.Skip:
+            return {"klass": None}
         return {"klass": None}
     except BaseException as exc:  # noqa: BLE001
         return {"harness_error": f"{type(exc).__name__}: {exc}\n{traceback.format_exc()}"}
@@ -81,6 +83,9 @@ def main(argv=None):
             print(f"replay: {v.klass}: {v.msg}")
             print(f"VIOLATION property={prop} replay={args.replay}")
             return 1
+        except core.Skip as sk:
+            print(f"replay: case lies outside the checked domain on this tree ({sk})")
+            return 0
         print(f"replay: case passes on this tree ({rec.get('klass')})")
         return 0
 
